@@ -35,6 +35,25 @@ def bin_oracle(k, out):
     return fails
 
 
+def bookkeeping_oracle(k, o):
+    """the published rules are functions of the sample, the weight(s) and the hyper-parameters: the same well-formed
+    weights in a model whose training book-keeping (counters, labels) was cleared give the same values"""
+    import copy
+    k2 = dict(k)
+    est2 = copy.deepcopy(k["est"])
+    est2.weight_sample_counter_ = []
+    est2.sample_counter_ = 0
+    est2.labels_ = np.zeros((0,), dtype=int)
+    k2["est"] = est2
+    o2 = K.run_call(k2)
+    for f in ("T", "M", "U", "N"):
+        if o.get(f) != o2.get(f):
+            return [{"signature": f"{k['kind']}/depends-on-bookkeeping",
+                     "text": f"{f} = {o.get(f)} on the trained model but {o2.get(f)} for the same weights in a model with cleared counters/labels",
+                     "replay": K.summary(k, o)}]
+    return []
+
+
 def gen_bbox(rng):
     d = rng.randrange(1, 5)
     lo = [Fraction(rng.randrange(0, 9), 16) for _ in range(d)]
@@ -97,6 +116,7 @@ def main():
             stats["impure"] += 1
             fails.append({"signature": f"{k['kind']}/purity", "text": "a public kernel call modified the model or its arguments", "replay": K.summary(k, o)})
         fails.extend(bin_oracle(k, o))
+        fails.extend(bookkeeping_oracle(k, o))
     codes, bad = flow.coq_corr("C03", "RunKern", strs, shard=100, check_fn="kcheck")
     # bounding boxes / shrink at exact rationals
     nb = 300 if tier == "quick" else 3000
